@@ -58,10 +58,19 @@ func propC11(c *Ctx, r *Report) {
 				bad = append(bad, "credited address does not come from NewFAAddress(GetAddress())")
 			}
 			// the collection is the result of Winners()
+			// a variable kept in memory for the closures of the loop body stands for the one value stored in it
+			slotVal := func(v ssa.Value) ssa.Value {
+				if al := slotOf(v); al != nil {
+					if sts, ok := slotStores(al); ok && len(sts) == 1 {
+						return sts[0].Val
+					}
+				}
+				return v
+			}
 			fromWinners := func(el []elemRef) (ssa.Value, ssa.Value, bool) {
 				for _, x := range el {
-					if isCallTo(x.base, "Winners") {
-						return x.base, x.index, true
+					if b := slotVal(x.base); isCallTo(b, "Winners") {
+						return b, slotVal(x.index), true
 					}
 				}
 				return nil, nil, false
@@ -82,7 +91,12 @@ func propC11(c *Ctx, r *Report) {
 				if !ok3 || hb != wb || hi != wi {
 					bad = append(bad, "history row is written for a different element than the one credited")
 				}
-				if !instrDominates(add, hs[0]) && !instrDominates(hs[0], add) {
+				sameSteps := false // two steps of one list of closures run in order by one loop
+				if add.Parent() != hs[0].Parent() {
+					la, lb := c.liftSite(add, f), c.liftSite(hs[0], f)
+					sameSteps = la != nil && la == lb
+				}
+				if !sameSteps && !c.famDominates(f, add, hs[0]) && !c.famDominates(f, hs[0], add) {
 					bad = append(bad, "credit and history row are not on the same path")
 				}
 			}
@@ -172,30 +186,7 @@ func propC11(c *Ctx, r *Report) {
 
 	ruleEveryRecordGraded(c, r, e, "C11/every-record-graded")
 	// what is recorded as "previous winners" for the next block is the grader's own carried-forward list
-	r.rule("C11/winners-recorded", 1, "pn_grade records WinnersShortHashes() of the graded block")
-	{
-		igb := c.fn("pegnet.Pegnet.InsertGradeBlock")
-		okk := false
-		n := 0
-		for _, g := range c.family(igb) {
-			for _, ci := range callsOf(g) {
-				if stmtLabel(c, ci) != "INSERT pn_grade" {
-					continue
-				}
-				if nm := shortCallee(ci.Common()); nm != "Exec" && nm != "ExecContext" {
-					continue
-				}
-				n++
-				vals, _ := sqlParamValues(ci.Common())
-				for _, v := range vals {
-					if sliceHas(v, func(x ssa.Value) bool { return isCallTo(x, "WinnersShortHashes") }) {
-						okk = true
-					}
-				}
-			}
-		}
-		r.check(okk && n > 0, "C11/winners-recorded", "InsertGradeBlock", c.pos(igb.Pos()), "a parameter of the pn_grade insert derives from WinnersShortHashes()", "no parameter of the INSERT into pn_grade derives from graded.WinnersShortHashes(): for a block without winners that call carries the previous winners forward; a list rebuilt from Winners() is empty there, and every record of the next block then names the 'wrong' previous winners and is rejected")
-	}
+	ruleWinnersRecorded(c, r, "C11/winners-recorded")
 	// the graders see every record of the block: a failed download is not mistaken for an invalid record
 	r.rule("C11/inputs-complete", 2, "errors of the parallel entry fetch reach SyncBlock")
 	runErrflow(c, computeEffects(c), r, reachOfSelf(c, "node.multiFetch"), "C11/inputs-complete", false)
